@@ -31,6 +31,9 @@ void _ZN3tbb6detail2d113spin_rw_mutex4lockEv(struct S_class_tbb__detail__d1__spi
 void _ZN3tbb6detail2d113spin_rw_mutex6unlockEv(struct S_class_tbb__detail__d1__spin_rw_mutex* m) { u64* w = (u64*)m; VP_ASSERT(*w == 1, "unlock of a spin_rw_mutex not held for writing"); *w = 0; }
 void _ZN3tbb6detail2d113spin_rw_mutex11lock_sharedEv(struct S_class_tbb__detail__d1__spin_rw_mutex* m) { u64* w = (u64*)m; if (*w & 1) { VP_BLOCK(); return; } *w += 4; }
 void _ZN3tbb6detail2d113spin_rw_mutex13unlock_sharedEv(struct S_class_tbb__detail__d1__spin_rw_mutex* m) { u64* w = (u64*)m; VP_ASSERT(*w >= 4 && !(*w & 1), "unlock_shared of a spin_rw_mutex not held for reading"); *w -= 4; }
+/* cut: std::deque slow paths of the predecessor queue (chunk exhausted / last element of a chunk): unreachable with one predecessor */
+void _ZNSt5dequeIPN3tbb6detail2d26senderIiEESaIS5_EE16_M_pop_front_auxEv(struct S_class_std__deque* d) { VP_ASSERT(0, "VP bound: std::deque::_M_pop_front_aux reached"); }
+void _ZNSt5dequeIPN3tbb6detail2d26senderIiEESaIS5_EE16_M_push_back_auxIJS5_EEEvDpOT_(struct S_class_std__deque* d, struct S_class_tbb__detail__d2__sender** x) { VP_ASSERT(0, "VP bound: std::deque::_M_push_back_aux reached"); }
 u32 vp_src_reserve(u32* v) { if (!item_avail || item_reserved) return 0; item_reserved = 1; offered_ok = 0; *v = (u32)item_val; return 1; }
 void vp_src_release(void) { VP_ASSERT(item_reserved, "release without reservation"); VP_ASSERT(!offered_ok, "release although the successor accepted the message"); item_reserved = 0; }
 void vp_src_consume(void) { VP_ASSERT(item_reserved && offered_ok, "consume without reservation / accepted offer"); item_reserved = 0; item_avail = 0; }
